@@ -1110,6 +1110,14 @@ class _Eval:
             ft = ("attr", ("global", "super"), f.attr)
         else:
             ft = self.expr(f)
+        if ft[0] == "call" and ft[1] == ("global", "functools.partial") and ft[2] and not any(a_[0] == "starred" for a_ in ft[2] + args):
+            # p = functools.partial(g, *a, **k); p(*b, **k2)  is  g(*a, *b, **{**k, **k2}): the call is read with the bound arguments in place
+            bound = {k_: v_ for k_, v_ in ft[3] if k_ is not None and not k_.startswith("#")}
+            bound.update({k_: v_ for k_, v_ in kws if k_ is not None})
+            rest_ = tuple(kv for kv in tuple(ft[3]) + kws if kv[0] is None)
+            args = tuple(ft[2][1:]) + args
+            kws = tuple(sorted(bound.items(), key=lambda kv: kv[0])) + rest_
+            ft = ft[2][0]
         if ft == ("global", "any") and len(args) == 1 and not kws and args[0][0] == "comp" and len(args[0][3]) == 1 and not args[0][3][0][2]:
             # any(x.startswith(p) for p in P) asks the same as x.startswith(tuple(p for p in P)): one canonical spelling (the tuple form)
             c_ = args[0]
